@@ -355,6 +355,12 @@ impl Local {
             });
             #[cfg(feature = "circ_verif")]
             crate::verif::expose(local.as_raw());
+            #[cfg(feature = "circ_verif")]
+            crate::verif::ev(
+                crate::verif::event::LOCAL_REGISTER,
+                local.as_raw() as usize,
+                &*collector.global as *const Global as usize,
+            );
             collector.global.locals.insert(local, &unprotected());
             LocalHandle {
                 local: local.as_raw(),
@@ -640,6 +646,17 @@ impl Local {
         if manual_count % unsafe { MANUAL_EVENTS_BETWEEN_COLLECT } == 0 {
             self.flush(guard);
         }
+    }
+}
+
+#[cfg(feature = "circ_verif")]
+impl Drop for Local {
+    fn drop(&mut self) {
+        crate::verif::ev(
+            crate::verif::event::LOCAL_FREE,
+            self as *const Local as usize,
+            0,
+        );
     }
 }
 
